@@ -45,7 +45,7 @@ def gen_cases(tier, seed):
                 "smat": sm, "pmat": ["P", "centring", "centring"][rng.integers(3)],
                 "regime": ["short", "long"][rng.integers(2)],
                 "full": bool(rng.integers(2)), "store_dense_svecs": bool(rng.integers(2)),
-                "qseed": int(rng.integers(10 ** 6)), "frac": float(rng.uniform(0.55, 1.6)), "_threads": [1, 2, 3, 5, 7, 16][int(rng.integers(6))], 
+                "qseed": int(rng.integers(10 ** 6)), "frac": float(rng.uniform(0.55, 1.6)), "_threads": [1, 2, 3, 5, 7, 16][int(rng.integers(6))],
                 "_cost": nu * setup.det3(sm),
             })
     return cases
@@ -73,6 +73,10 @@ def commensurate_q(M):
 def run_case(c):
     from vlib.gen import models, setup
 
+    # the unit factor of the object (frequencies = sqrt|eigenvalue| x factor on EVERY access path): the default, or another calculator's
+    fsel = [None, None, 1.0, 521.4708, 3.3356e3, 0.07][c["qseed"] % 6]
+    if fsel is not None:
+        c = dict(c, factor=fsel)
     ph, cd = setup.build_phonopy(dict(c, pmat=None))
     pm = setup.resolve_pmat(cd, c["pmat"])
     if pm != "P":
